@@ -29,6 +29,7 @@ STRING_VARS = {
     "platform_system": ["Linux", "Windows", "Darwin"],
     "platform_python_implementation": ["CPython", "PyPy"],
     "implementation_version": ["3.8.1", "3.10.0", "3.9"],
+    "platform_version": ["#1 SMP", "#1  SMP", "#1 SMP PREEMPT", "Darwin Kernel Version 21.6.0"],
 }
 # platform_release is version-like for the library but real values often are not PEP 440 versions
 RELEASE_VALUES = ["5.4", "5.10", "5.10.0", "6", "6.1", "5.10.0-generic", "5.15.0-91-generic"]
@@ -332,6 +333,10 @@ def respell(rng, n, enabled, p=0.6, depth=0):
             a[4] = not a[4]
         if "respell" in enabled and rng.random() < p and a[1] in VERSION_VARS and "*" not in a[3] and "," not in a[3]:
             a[3] = _respell_value(rng, a[1], a[3])
+        elif a[1] not in VERSION_VARS and " " in a[3] and rng.random() < p * 0.3:
+            # same literal up to the AMOUNT of white space inside it (a different string, but one that a
+            # careless normalisation would conflate)
+            a[3] = a[3].replace(" ", rng.choice(["  ", "\t", "   "]), 1) if rng.random() < 0.7 else " ".join(a[3].split())
         elif a[1] in VERSION_VARS and a[2] in ("in", "not in") and rng.random() < p:
             # respell a version list: entries, order, separators; or hand the same text to the other variable
             parts = [x.strip() for x in a[3].split(",")]
@@ -609,8 +614,19 @@ class _new(int):
 def saturation_universe(rng, cfg):
     """A tiny closed universe of atoms: every operator x spelling x literal side over one or two
     version bases of one or two variables (or the values of one string variable / extra)."""
-    kind = rng.choice(["pv", "pfv", "pv_pfv", "string", "extra", "release", "lists"])
+    kind = rng.choice(["pv", "pfv", "pv_pfv", "string", "extra", "release", "lists", "ladder"])
     atoms = []
+    if kind == "ladder":
+        # many distinct versions of one variable; gen_saturation_script walks them in monotone order
+        name = rng.choice(VERSION_VARS)
+        major = rng.choice([2, 3])
+        top = rng.choice([12, 16, 20])
+        for minor in range(top):
+            v = f"{major}.{minor}" if name == "python_version" or rng.random() < 0.5 else f"{major}.{minor}.{rng.choice([0, 1, 4])}"
+            atoms.append(atom(name, ">=", v))
+            atoms.append(atom(name, "<", v))
+        cfg["ladder"] = rng.choice(["up", "down", "both"])
+        return atoms
     if kind == "lists":
         # version lists (in / not in) in several spellings, orders and separators, on one or both variables
         base = rng.choice(VERSION_BASES[:-1])
@@ -697,10 +713,20 @@ def gen_saturation_script(rng, cfg, atoms, n_ops):
         return where[i]
 
     results = []
-    for _ in range(n_ops):
-        i, j = rng.randrange(len(atoms)), rng.randrange(len(atoms))
+    ladder = cfg.get("ladder")
+    order = None
+    if ladder:
+        # (>= v_k) op (< v_top), k walking up or down: each step introduces one new bound between known ones
+        n_rungs = len(atoms) // 2
+        ks = list(range(n_rungs - 1))
+        if ladder == "down" or (ladder == "both" and rng.random() < 0.5):
+            ks.reverse()
+        order = [(2 * k, 2 * (n_rungs - 1) + 1) for k in ks] + [(2 * k, 2 * k + 3) for k in ks if 2 * k + 3 < len(atoms)]
+        n_ops = len(order)
+    for step_no in range(n_ops):
+        i, j = order[step_no] if order else (rng.randrange(len(atoms)), rng.randrange(len(atoms)))
         roll = rng.random()
-        if results and roll < 0.2:
+        if results and roll < 0.2 and not order:
             a, b = rng.choice(results), slot(j)  # chain on an earlier result
         else:
             a, b = slot(i), slot(j)
